@@ -65,7 +65,8 @@ def handle (j : Json) : Except String Json := do
     let m ← mapOf (← jobj j "map")
     let g ← jbool j "guard"
     let bs ← (← jarr j "blocks").toList.mapM blockOf
-    pure (Json.mkObj [("ok", Json.arr ((transformBlocks g m bs).map blockJ).toArray)])
+    pure (Json.mkObj [("ok", Json.arr ((transformBlocks g m bs).map blockJ).toArray),
+                      ("nonint", Json.bool (nonInterferingB m))])
   | _ => throw s!"unknown op {op}"
 
 def main : IO Unit := serve handle
